@@ -1,4 +1,6 @@
 //! vtv — runtime monitors for the versatiles-rs properties C01…C20 (see /verif/DESIGN.md).
+pub mod check;
+pub mod codec;
 pub mod comp;
 pub mod gen;
 pub mod guard;
